@@ -29,7 +29,7 @@ def sem_view(obs, r):
 class Spec:
     def __init__(self, pid, ctors, obs, sem_obs=None, ekinds=("rich",), ikinds=("str",), modes=("parse", "check"),
                  no_not=False, depth=(1, 4), n_quick=500, n_thorough=6000, slices=True, extra=None,
-                 nontrivial=None, rule="", alpha=None, gen_hook=None, cross=None):
+                 nontrivial=None, rule="", alpha=None, gen_hook=None, cross=None, emit_bias=0.0):
         self.pid, self.ctors, self.obs = pid, ctors, obs
         self.sem_obs = sem_obs or obs
         self.ekinds, self.ikinds, self.modes = ekinds, ikinds, modes
@@ -42,11 +42,13 @@ class Spec:
         self.alpha = alpha or ALPHA
         self.gen_hook = gen_hook
         self.cross = cross              # oracle across the cases of one (grammar, input)
+        self.emit_bias = emit_bias
 
     def cases(self, rng, tier, start_id=1):
         """Yields (id, line, meta) with meta = dict(g=..., inp=..., ikind, ekind, mode, group)."""
         n = self.n_quick if tier == "quick" else self.n_thorough
         G = Gen(rng, self.ctors, alpha=self.alpha, no_not=self.no_not, slices=self.slices)
+        G.emit_bias = self.emit_bias
         cid = start_id
         group = 0
         for gi in range(n):
@@ -99,7 +101,7 @@ def nt_backtrack(g, inp):
     return len(inp) > 0 and has_head(g, BACKTRACK)
 
 C01_CTORS = CORE
-C02_CTORS = ["Any", "Just", "OneOf", "NoneOf", "Then", "Or", "Map", "Filter", "OrNot", "To"] + ITER * 3 + ["MapWith", "ToSlice"]
+C02_CTORS = ["Any", "Just", "OneOf", "NoneOf", "Then", "Or", "Map", "Filter", "OrNot", "To"] + ITER * 3 + ["MapWith", "ToSlice", "WithCtx", "IgnoreWithCtx", "JustCfg"]
 
 SPECS = {
     "C01": Spec("C01", C01_CTORS + ["ToSpan", "MapWith"], obs_vv, ekinds=("rich", "empty", "simple"), ikinds=("str", "slice"),
@@ -117,13 +119,13 @@ SPECS = {
                 nontrivial=lambda g, inp: len(inp) > 0,
                 rule="C01/C02/C08 grammars; each sampled accepted input is also run extended by one token; "
                      "non-trivial = non-empty input"),
-    "C04": Spec("C04", CORE + SPANS + ITER + EMIT + RECOVER + DECOR + CTX, obs_errs, sem_obs=lambda r: (r.kind,),
+    "C04": Spec("C04", CORE + SPANS + ITER + ["RepUnit"] * 3 + EMIT + RECOVER + DECOR + CTX, obs_errs, sem_obs=lambda r: (r.kind,), emit_bias=0.2,
                 ekinds=("rich", "simple", "empty"), ikinds=("str", "slice"),
                 nontrivial=lambda g, inp: len(inp) > 0 and has_head(g, {"IgnoreThen", "ThenIgnore", "Ignored", "To", "ToSlice",
                     "ToSpan", "DelimitedBy", "PaddedBy", "RepUnit", "Filter", "TryMap", "Validate", "Collect"}),
                 rule="grammars over every modelled constructor; each (grammar, input) is run through parse() and check(); "
                      "non-trivial = non-empty input and an eliding / mode-forcing combinator present"),
-    "C05": Spec("C05", CORE + ITER + EMIT * 6 + RECOVER * 2, obs_emis, ekinds=("rich",),
+    "C05": Spec("C05", CORE + ITER + ["RepUnit"] * 3 + EMIT * 6 + RECOVER * 2, obs_emis, ekinds=("rich",), emit_bias=0.3, n_quick=800,
                 nontrivial=lambda g, inp: len(inp) > 0 and has_head(g, {"Validate", "RecoverVia", "RecoverSkipUntil", "RecoverSkipRetry"})
                                           and has_head(g, BACKTRACK),
                 rule="C01/C02 grammars with validate emitters and recover_with at random positions; "
@@ -135,7 +137,7 @@ SPECS = {
                 nontrivial=lambda g, inp: len(inp) > 0 and has_head(g, {"MapWith", "ToSpan", "ToSlice", "TryMapWith", "FoldlWith", "FoldrWith", "IMapWith"}),
                 rule="C01/C02 grammars with span / slice captures; multi-byte characters in the alphabet; "
                      "non-trivial = a capture node present and non-empty input"),
-    "C08": Spec("C08", CORE + ITER + EMIT + RECOVER * 6, obs_full, sem_obs=obs_vv_emis, ekinds=("rich",),
+    "C08": Spec("C08", CORE + ITER + EMIT + RECOVER * 6, obs_full, sem_obs=obs_vv_emis, ekinds=("rich",), emit_bias=0.25, n_quick=800,
                 nontrivial=lambda g, inp: has_head(g, set(RECOVER)),
                 rule="C01/C02 grammars with recover_with(via_parser | skip_until | skip_then_retry_until) at random positions and nesting; "
                      "non-trivial = a recovery node present"),
